@@ -3,7 +3,9 @@
 Targets rl4co.data.dataset (TensorDictDataset, FastTdDataset, TensorDictDatasetFastGeneration,
 ExtraKeyDataset, add_key, collate_fn), RL4COLitModule._dataloader/_dataloader_single, env.dataset and
 RolloutBaseline.setup/rollout/wrap_dataset (directly and through REINFORCE + WarmupBaseline) under drawn
-train()/eval() mode histories, and RL4COLitModule.setup + train_/val_/test_dataloader for every phase.
+train()/eval() mode histories, RL4COLitModule.setup + train_/val_/test_dataloader for every phase, the real epoch
+hooks REINFORCE.on_train_epoch_end / RL4COLitModule.on_train_epoch_end over several epochs (vf/c17_hooks.py), MDAM's
+replacement rollout, and loaders with worker processes.
 
 Oracles
   * loader round trip: every batch row is compared bit-for-bit (bytes, dtype, shape) with the row of a
@@ -26,6 +28,7 @@ import math
 import hypothesis.strategies as st
 import torch
 
+from ..c17_hooks import execute_hooks, execute_mdam, hook_cases, mdam_cases
 from ..runner import SkipCase, Sub
 
 PROPERTY = "C17"
@@ -55,7 +58,21 @@ RULE = (
     "{None (documented fall-back), int, list per dataset}, shuffle_train_dataloader on/off, dataloader_num_workers=0; "
     "setup() then train_/val_/test_dataloader() in a drawn order with up to 2 repeated calls (a repeated train call "
     "first renews the train set the way on_train_epoch_end does); loaded batches are modified in place after "
-    "verification. Non-trivial = final partial batch (N % bs != 0) "
+    "verification; a phase may also name a file that does not exist (documented fall-back: generated instances of "
+    "the configured size); a repeated train call runs the real on_train_epoch_end with a stub trainer (max_epochs 1-4, "
+    "current_epoch = number of train epochs done): the train set is renewed unless that was the last epoch. "
+    "loader_roundtrip also re-wraps the already wrapped dataset under ANOTHER key name (new key = new values; the old "
+    "key, if it still travels, keeps its own item's value). loader_workers: the loader round trip with "
+    "dataloader_num_workers 1-2 (forked workers, N <= 9). env_dataset: 19 envs (mtvrp, spctsp, mdcpdp, flp, mcp added). "
+    "epoch_hooks (vf/c17_hooks.py): REINFORCE(baseline='rollout', n_epochs 1-3, bl_alpha 1/0.5/0.05) set up without "
+    "Trainer, stub trainer (max_epochs 2-5), 1-4 real on_train_epoch_end calls from epoch e0 in {0, 1, n_epochs, "
+    "n_epochs+1} with the actor perturbed before each; after every call: baseline policy = previous snapshot or copy "
+    "of the actor, renewed evaluation set of val_data_size, alpha = (e+1)/n_epochs capped at 1, a new train set of "
+    "train_data_size from the recorded generator wrapped with extra[i] = solo greedy reward of the CURRENT baseline "
+    "policy on instance i, untouched train set after the last epoch, train_dataloader serving exactly that set. "
+    "mdam_wrap: MDAM(baseline='rollout') (2-3 decoder paths) - baseline values and extra of the hook-renewed train set "
+    "= best-path greedy reward of an independent copy of the baseline policy (float32 vs float64 stability rule). "
+    "Non-trivial = final partial batch (N % bs != 0) "
     "and, for the loader subs, shuffle on with an extra key; for rollout_wrap additionally >=1 decisive instance; for "
     "module_phases shuffle_train_dataloader on and a val/test dataset with N >= 3 and a final partial batch. "
     "Distinct = distinct case hash."
@@ -70,7 +87,17 @@ ASSUMPTIONS = [
     "one; equality to 1e-5*(1+|r|) asserted only for instances whose solo decode is decisive (top-2 gap > 1e-4)",
     "RL4COLitModule._dataloader with a *list* of datasets and REINFORCE(baseline='rollout_only').setup() crash on "
     "the unchanged tree; recorded as observations (events) only, by decision of the lead",
-    "dataloader_num_workers = 0 (library default)",
+    "dataloader_num_workers = 0 (library default) except in the loader_workers sub (1-2 forked workers; tiny "
+    "datasets, because every pass forks the check process)",
+    "epoch_hooks / module_phases drive the hooks through a stub `module.trainer` exposing max_epochs and current_epoch "
+    "(all that REINFORCE.on_train_epoch_end / RL4COLitModule.on_train_epoch_end read; get_lightning_device falls back "
+    "to module.device); documented: 'If last epoch, we don't need to update' and WarmupBaseline's schedule incl. "
+    "'warmup is over, also if the callback of the last warmup epoch was never seen'; the float32-mean / float64-t "
+    "sign assertion of RolloutBaseline.epoch_callback is excluded as in rollout_wrap",
+    "a float64 baseline policy is outside the domain: RolloutBaseline.setup evaluates it on float32 instances from "
+    "env.dataset (dtype error on the unchanged tree), so `extra` is float32 everywhere",
+    "mdam_wrap stability rule: an instance whose best-path reward differs between the float32 policy and its float64 "
+    "copy by more than 1e-5*(1+|r|) is a numerical near-tie (don't-care on mismatch)",
     "rollout_wrap mode histories: nn.Module.train(mode)/eval() called on the REINFORCE module, the baseline module or "
     "the actor are ordinary user / Trainer actions; they change no parameter, so the baseline policy's greedy reward "
     "on instance i (eval-mode forward of the frozen copy) is the same before and after them. The dropout variant "
@@ -137,14 +164,28 @@ def _dataset_cls(name):
     return {"tdd": D.TensorDictDataset, "fast": D.FastTdDataset, "fastgen": D.TensorDictDatasetFastGeneration}[name]
 
 
-def _make_loader(ctx, kind, ds, bs, shuffle):
+def _lit_workers(w):
+    """Trainer-free module configured with dataloader_num_workers=w (loader methods only)."""
+    if w == 0:
+        return _lit()
+    if ("w", w) not in _LIT:
+        from rl4co.envs import TSPEnv
+        from rl4co.models.rl.common.base import RL4COLitModule
+
+        _LIT[("w", w)] = RL4COLitModule(TSPEnv(generator_params={"num_loc": 5}), torch.nn.Identity(), batch_size=4,
+                                        train_data_size=4, val_data_size=2, test_data_size=2, dataloader_num_workers=w)
+    return _LIT[("w", w)]
+
+
+def _make_loader(ctx, kind, ds, bs, shuffle, workers=0):
     from torch.utils.data import DataLoader
 
     if kind == "torch":
-        return ctx.guard(DataLoader, ds, batch_size=bs, shuffle=shuffle, collate_fn=ds.collate_fn, what="DataLoader")
+        return ctx.guard(DataLoader, ds, batch_size=bs, shuffle=shuffle, collate_fn=ds.collate_fn, num_workers=workers,
+                         what="DataLoader")
     if kind == "module":
-        return ctx.guard(_lit()._dataloader, ds, bs, shuffle, what="_dataloader")
-    return ctx.guard(_lit()._dataloader_single, ds, bs, shuffle, what="_dataloader_single")
+        return ctx.guard(_lit_workers(workers)._dataloader, ds, bs, shuffle, what="_dataloader")
+    return ctx.guard(_lit_workers(workers)._dataloader_single, ds, bs, shuffle, what="_dataloader_single")
 
 
 def _batch_shape_ok(ctx, batches, N, bs, tag):
@@ -222,18 +263,33 @@ def cases_a(draw, tier="quick"):
                  "name": draw(st.sampled_from(["extra", "extra", "extra", "bl_val"]))}
     return dict(N=N, keys=keys, cls=cls, extra=extra, bs=_bs(draw, N), shuffle=draw(st.sampled_from([True, False, True])),
                 loader=draw(st.sampled_from(["torch", "torch", "module", "module_single"])),
+                rekey=draw(st.sampled_from(["same", "same", "other"])),
                 id_pos=draw(st.integers(0, len(keys))), seed=draw(st.integers(0, 2 ** 20)))
 
 
-def _verify_ids(ctx, batches, src, N, shuffle, tag, extra_name=None):
-    """Every row of every key equals the original row selected by the travelling `id`."""
+@st.composite
+def cases_workers(draw, tier="quick"):
+    """(12) dataloader_num_workers > 0: the loader round trip of cases_a on tiny datasets, items fetched and collated in
+    forked worker processes (the dataset object is copied into every worker by fork)."""
+    c = draw(cases_a(tier))
+    N = draw(st.integers(2, 9))
+    c.update(N=N, bs=_bs(draw, N), workers=draw(st.sampled_from([1, 2, 2])),
+             loader=draw(st.sampled_from(["module", "module", "module_single", "torch"])))
+    return c
+
+
+def _verify_ids(ctx, batches, src, N, shuffle, tag, extra_name=None, optional=()):
+    """Every row of every key equals the original row selected by the travelling `id`.  Keys in `optional` may be
+    absent from a batch; where present they must carry the values of `src` like any other key."""
     ids_all = []
-    want_keys = set(src)
+    must = set(src) - set(optional)
     for bi, b in enumerate(batches):
         got_keys = set(b.keys())
-        if not ctx.check(got_keys == want_keys, f"keys|{tag}",
-                         f"batch {bi} has keys {sorted(got_keys)}, expected {sorted(want_keys)}"):
+        if not ctx.check(must <= got_keys <= set(src), f"keys|{tag}",
+                         f"batch {bi} has keys {sorted(got_keys)}, expected {sorted(must)}"
+                         + (f" (optionally {sorted(optional)})" if optional else "")):
             return
+        want_keys = got_keys
         ids = b["id"]
         ok = ids.dtype == torch.int64 and ids.dim() == 1 and bool(((ids >= 0) & (ids < N)).all())
         if not ctx.check(ok, f"id_corrupt|{tag}",
@@ -303,9 +359,14 @@ def execute_a(case, ctx):
             ds = ctx.guard(ds.add_key, ename, evals, what=f"add_key|{cls}")
     ctx.check(len(ds) == N, f"len|{tag}", f"len(dataset)={len(ds)} for {N} instances")
 
+    workers = case.get("workers", 0)
+
     def one_pass():
         torch.manual_seed(case["seed"])
-        dl = _make_loader(ctx, case["loader"], ds, bs, shuffle)
+        dl = _make_loader(ctx, case["loader"], ds, bs, shuffle, workers)
+        if workers:
+            ctx.check(dl.num_workers == workers, f"num_workers|{tag}",
+                      f"loader has num_workers={dl.num_workers}, dataloader_num_workers={workers} was configured")
         return ctx.guard(list, dl, what=f"iterate|{cls}")
 
     batches = one_pass()
@@ -327,15 +388,23 @@ def execute_a(case, ctx):
             evals2 = _col(ex["dt"], N, ex["shape"], case["seed"] * 8 + 5)
             if evals2.dtype != torch.bool:
                 evals2 = evals2 + evals2.new_ones(()) if evals2.dtype.is_floating_point else evals2 + 1
-            ds2 = ctx.guard(base_ds.add_key, ename, evals2.clone(), what=f"add_key_again|{cls}")
+            # (H8) ... under the same key name, or under ANOTHER key name on the already wrapped dataset: the new key
+            # carries the new values; the old key, should it still travel with the items (shared item dicts / the
+            # in-place TensorDictDatasetFastGeneration), must still carry its own item's old value
+            rekey = case.get("rekey", "same")
+            name2 = ename if rekey == "same" else ("bl_new" if ename != "bl_new" else "extra2")
+            ds2 = ctx.guard(base_ds.add_key, name2, evals2.clone(), what=f"add_key_again|{cls}")
             src2 = dict(src)
-            src2[ename] = evals2.clone()
+            src2[name2] = evals2.clone()
             ds_prev, ds = ds, ds2
             third = one_pass()
-            if _batch_shape_ok(ctx, third, N, bs, "rewrap|" + tag):
-                _verify_ids(ctx, third, src2, N, shuffle, "rewrap|" + tag, ename)
+            t3 = ("rewrap|" if rekey == "same" else "rewrap_other_key|") + tag
+            if _batch_shape_ok(ctx, third, N, bs, t3):
+                _verify_ids(ctx, third, src2, N, shuffle, t3, name2, optional=() if rekey == "same" else (ename,))
+                if rekey != "same" and third:
+                    ctx.event(f"old_key_{'still_present' if ename in third[0].keys() else 'gone'}_after_rekey|{cls}")
             ds = ds_prev
-            ctx.event("rewrapped_with_new_extra")
+            ctx.event("rewrapped_with_new_extra" + ("" if rekey == "same" else "_under_other_key"))
 
     partial = N % bs != 0
     ctx.event(f"cls={cls}")
@@ -344,6 +413,8 @@ def execute_a(case, ctx):
     ctx.event(f"extra={int(ex is not None)}")
     ctx.event(f"partial_last_batch={int(partial)}")
     ctx.event(f"loader={case['loader']}")
+    if workers:
+        ctx.event(f"workers={workers}|{cls}|extra={int(ex is not None)}")
     ctx.event("bs>N" if bs > N else ("bs=1" if bs == 1 else "1<bs<=N"))
     ctx.event("dtypes=" + "+".join(sorted({k["dt"] for k in case["keys"]})))
     ctx.event("shapes=" + "+".join(sorted({str(len(k["shape"])) + "d" for k in case["keys"]})))
@@ -405,8 +476,8 @@ def _verify_content(ctx, batches, ref, N, shuffle, tag, extra=None, extra_name="
 
 # --------------------------------------------------------------------------- A2. env.dataset through the module
 ENVS = ["tsp", "cvrp", "sdvrp", "cvrptw", "op", "pctsp", "pdp", "atsp", "mtsp", "svrp", "ffsp", "smtwtp", "jssp",
-        "fjsp"]
-SIZED = {"tsp", "cvrp", "sdvrp", "op", "pctsp", "pdp", "atsp", "mtsp", "svrp"}
+        "fjsp", "mtvrp", "spctsp", "mdcpdp", "flp", "mcp"]
+SIZED = {"tsp", "cvrp", "sdvrp", "op", "pctsp", "pdp", "atsp", "mtsp", "svrp", "mtvrp", "spctsp"}
 
 
 @st.composite
@@ -431,6 +502,8 @@ def _get_env(name, num_loc, dcls):
     kw = {}
     if name in SIZED:
         kw["generator_params"] = {"num_loc": num_loc}
+    if name == "mtvrp":  # (the generator needs a variant preset)
+        kw["generator_params"]["variant_preset"] = "all" if num_loc % 2 else "vrptw"
     if dcls != "default" and name != "ffsp":  # FFSPEnv fixes dataset_cls=FastTdDataset itself
         kw["dataset_cls"] = _dataset_cls(dcls)
     return get_env(name, **kw)
@@ -506,7 +579,9 @@ def cases_ph(draw, tier="quick"):
     first = draw(st.lists(st.integers(1, 16), min_size=3, max_size=3, unique=True))
     phases = {}
     for ph, n0 in zip(_PH, first):
-        form = draw(st.sampled_from(["gen", "gen", "file"] if ph == "train" else ["gen", "file", "files", "files"]))
+        # "missing": a file is configured but does not exist - env.dataset logs an error and generates (documented)
+        form = draw(st.sampled_from(["gen", "gen", "file", "missing"] if ph == "train"
+                                    else ["gen", "file", "files", "files", "missing"]))
         k = draw(st.integers(1, 3)) if form == "files" else 1
         Ns = [n0] + [draw(st.integers(1, 12)) for _ in range(k - 1)]
         names = None
@@ -536,7 +611,7 @@ def cases_ph(draw, tier="quick"):
     return dict(keys=keys, id_pos=draw(st.integers(0, len(keys))), phases=phases, bs=bs, val_bs=vbs, test_bs=tbs,
                 shuffle_train=draw(st.sampled_from([True, True, False])),
                 dcls=draw(st.sampled_from(["default", "tdd", "fast", "fastgen"])),
-                module=draw(st.sampled_from(["reinforce", "base"])), calls=calls,
+                module=draw(st.sampled_from(["reinforce", "base"])), calls=calls, max_epochs=draw(st.integers(1, 4)),
                 sizes_unused=draw(st.integers(1, 30)), seed=draw(st.integers(0, 2 ** 20)))
 
 
@@ -592,6 +667,9 @@ def _run_ph(case, ctx, tmp):
         p = phases[ph]
         if p["form"] == "gen":
             continue
+        if p["form"] == "missing":
+            kw[f"{ph}_file"] = f"no_such_{ph}_file.npz"
+            continue
         origin[ph], files = [], []
         for j, n in enumerate(p["N"]):
             cols = _cols(keys, id_pos, n, seed * 64 + pi * 8 + j)
@@ -606,7 +684,7 @@ def _run_ph(case, ctx, tmp):
     env = ctx.guard(TSPEnv, generator_params={"num_loc": 5}, data_dir=tmp, what="TSPEnv", **kw)
     gen = _RecordingGenerator(keys, id_pos, seed)
     env.generator = gen
-    size = {ph: (phases[ph]["N"][0] if phases[ph]["form"] == "gen" else case["sizes_unused"]) for ph in _PH}
+    size = {ph: (phases[ph]["N"][0] if phases[ph]["form"] in ("gen", "missing") else case["sizes_unused"]) for ph in _PH}
     cls = REINFORCE if case["module"] == "reinforce" else RL4COLitModule
     mkw = {"baseline": "no"} if case["module"] == "reinforce" else {}
     # the loader factories never touch the policy: a parameter-free stand-in keeps the per-case construction cheap
@@ -624,20 +702,37 @@ def _run_ph(case, ctx, tmp):
 
     def originals(ph):
         p = phases[ph]
-        if p["form"] == "gen":
+        if p["form"] in ("gen", "missing"):
             return [gen.made[p["N"][0]][-1]]
         return origin[ph]
 
     stake = False
     seen = set()
+    train_calls = 0
+    max_epochs = case.get("max_epochs") or 10 ** 6  # (cases recorded before the hook was used: always renewed)
     for ci, ph in enumerate(case["calls"]):
         p = phases[ph]
         if ph == "train" and ph in seen:
-            # a new epoch: what RL4COLitModule.on_train_epoch_end does (it needs a trainer for the epoch counter)
-            model.train_dataset = ctx.guard(model.wrap_dataset,
-                                            ctx.guard(env.dataset, size["train"], "train", what="env.dataset"),
-                                            what="wrap_dataset")
-            ctx.event("train_set_renewed")
+            # a new epoch: the real hook (REINFORCE.on_train_epoch_end -> NoBaseline callback -> RL4COLitModule.
+            # on_train_epoch_end) with a stub trainer that exposes what the hooks read: max_epochs / current_epoch.
+            # Documented: the train set is renewed unless the epoch that ended was the last one.
+            import types
+
+            epoch = train_calls - 1
+            model.trainer = types.SimpleNamespace(max_epochs=max_epochs, current_epoch=epoch)
+            prev_ds = model.train_dataset
+            n_made = len(gen.made.get(p["N"][0], []))
+            ctx.guard(model.on_train_epoch_end, what="on_train_epoch_end")
+            renew = epoch < max_epochs - 1
+            drew = len(gen.made.get(p["N"][0], [])) - n_made if p["form"] in ("gen", "missing") \
+                else int(model.train_dataset is not prev_ds)
+            ctx.check(drew == int(renew) and (model.train_dataset is not prev_ds) == renew, f"epoch_hook_renewal|{p['form']}",
+                      f"on_train_epoch_end with current_epoch={epoch}, max_epochs={max_epochs}: train set "
+                      f"{'replaced' if model.train_dataset is not prev_ds else 'kept'}, {drew} new draw(s); expected "
+                      f"{'a renewed' if renew else 'the same'} train set")
+            ctx.event("train_set_renewed" if renew else "train_set_kept_after_last_epoch")
+        if ph == "train":
+            train_calls += 1
         seen.add(ph)
         torch.manual_seed(seed + ci)
         dls = ctx.guard(getattr(model, f"{ph}_dataloader"), what=f"{ph}_dataloader")
@@ -1068,5 +1163,11 @@ SUBS = [
         budget={"quick": 512, "thorough": 5120}, shards=16),
     Sub("rollout_wrap", execute_b, strategy=lambda tier: cases_b(tier),
         budget={"quick": 256, "thorough": 2560}, shards=16, weight=3.0),
+    Sub("loader_workers", execute_a, strategy=lambda tier: cases_workers(tier),
+        budget={"quick": 32, "thorough": 480}, shards=16, weight=2.0),
+    Sub("epoch_hooks", execute_hooks, strategy=lambda tier: hook_cases(tier),
+        budget={"quick": 112, "thorough": 1280}, shards=16, weight=3.0),
+    Sub("mdam_wrap", execute_mdam, strategy=lambda tier: mdam_cases(tier),
+        budget={"quick": 24, "thorough": 320}, shards=16, weight=2.0),
     Sub("observations", execute_obs, enumerate=_observations, shards=1, weight=0.1),
 ]
